@@ -491,6 +491,41 @@ theorem updateNodes_keyed (ns : List Node) : ∀ m, Keyed m → Keyed (updateNod
     · simp [e] at hk; rw [← hk, e]
     · simp [e] at hk; exact h k v hk
 
+theorem updateNodes_get_not_mem (ns : List Node) (k : String) (h : k ∉ ns.map (·.id)) : ∀ m,
+    AL.get (updateNodes m ns) k = AL.get m k := by
+  induction ns with
+  | nil => intro m; rfl
+  | cons a t ih =>
+    intro m
+    simp only [List.map_cons, List.mem_cons, not_or] at h
+    simp only [updateNodes, List.foldl_cons]
+    have := ih h.2 (AL.set m a.id a)
+    simp only [updateNodes] at this
+    rw [this, AL.get_set_ne _ _ h.1]
+
+theorem updateNodes_get_mem (ns : List Node) : ∀ (n : Node), n ∈ ns → ∀ m,
+    ∃ n' ∈ ns, n'.id = n.id ∧ AL.get (updateNodes m ns) n.id = some n' := by
+  induction ns with
+  | nil => intro n h; simp at h
+  | cons a t ih =>
+    intro n hn m
+    by_cases hin : n.id ∈ t.map (·.id)
+    · obtain ⟨x, hx, hxid⟩ := List.mem_map.mp hin
+      obtain ⟨n', hn', hid, hg⟩ := ih x hx (AL.set m a.id a)
+      refine ⟨n', List.mem_cons_of_mem _ hn', hid.trans hxid, ?_⟩
+      simp only [updateNodes, List.foldl_cons]
+      simp only [updateNodes] at hg
+      rw [← hxid]; exact hg
+    · have hna : n = a := by
+        rcases List.mem_cons.mp hn with e | e
+        · exact e
+        · exact absurd (List.mem_map.mpr ⟨n, e, rfl⟩) hin
+      subst hna
+      refine ⟨n, List.mem_cons_self, rfl, ?_⟩
+      have := updateNodes_get_not_mem t n.id hin (AL.set m n.id n)
+      simp only [updateNodes, List.foldl_cons] at this ⊢
+      rw [this, AL.get_set_same]
+
 theorem Keyed.set {m : AL Node} (h : Keyed m) (n : Node) : Keyed (AL.set m n.id n) := by
   intro k v hk
   rw [AL.get_set] at hk
